@@ -41,6 +41,8 @@ def stmt_regs(s):
     if op == "arrnew": return s[1], list(s[2])
     if op == "arrget": return s[1], [s[2]] + list(s[3])
     if op == "arrset": return s[1], [s[1], s[3]] + list(s[2])
+    if op == "arrcopy": return s[1], [s[2]]
+    if op == "barrset": return None, [s[3]] + list(s[2])
     if op == "bset": return None, [s[2]]
     if op == "bget" or op == "bgetidx": return s[1], []
     if op == "bsetidx": return None, [s[3]]
@@ -162,7 +164,12 @@ def run(pid, tier, seed, profile, oracle, n_quick, n_thorough, variants=None, ca
     model_built = os.path.exists(os.path.join(common.COQ, "theories", "Model", "Prog.vo"))
     codes, errs = ([None] * len(cases), ["model not built"])
     if model_built:
-        codes, errs = progs.run_model_compare(cases, recs)
+        # cases marked "nomodel" use runner-only statements (try/except around a region, objects the model has no value for):
+        # they are decided by the property's direct oracle alone
+        mi = [i for i, c in enumerate(cases) if not c.get("nomodel")]
+        mcodes, errs = progs.run_model_compare([cases[i] for i in mi], [recs[i] for i in mi])
+        codes = [0] * len(cases)
+        for i, cd in zip(mi, mcodes): codes[i] = cd
     for e in errs:
         viol.append(dict(kind="correspondence", concrete=False, what="in-Coq evaluation of the model failed", detail=e))
     # only the digest components the property's theorems are about can break its tie to the code
